@@ -47,6 +47,8 @@ func (x *Exec) classify(t types.Type) TInfo {
 			return TInfo{K: TGhostMap, Bits: 0, Typ: t}
 		case "ghostByteMap":
 			return TInfo{K: TGhostMap, Bits: 8, Typ: t}
+		case "ghostU64Map":
+			return TInfo{K: TGhostMap, Bits: 64, Typ: t}
 		}
 	}
 	if a, ok := t.(*types.Alias); ok {
@@ -118,8 +120,8 @@ func (ti TInfo) sort() string {
 	case TBV:
 		return fmt.Sprintf("(_ BitVec %d)", ti.Bits)
 	case TGhostMap:
-		if ti.Bits == 8 {
-			return "(Array Int (_ BitVec 8))"
+		if ti.Bits == 8 || ti.Bits == 64 {
+			return fmt.Sprintf("(Array Int (_ BitVec %d))", ti.Bits)
 		}
 		return "(Array Int Int)"
 	}
